@@ -385,6 +385,63 @@ fn c15_varint_values<A: Subject>(run: &Run, backend: Backend) {
   crate::crashguard::clear_case();
 }
 
+/// slices and readers after `unsync::Arena::truncate` (the mapping is replaced): every backend, file arenas at
+/// offset 0 and 4096 of their file, a sequence of growing and shrinking sizes
+fn c15_after_truncate(run: &Run) {
+  type U = unsync::Arena;
+  for (backend, unify, foff, reserved) in [(Backend::Vec, false, 0u32, 0u32), (Backend::Vec, true, 0, 5), (Backend::Anon, true, 0, 0), (Backend::File, true, 0, 0), (Backend::File, true, 4096, 0), (Backend::File, true, 4096, 5)] {
+    let mut cfg = Cfg::new(Fl::Optimistic, backend, unify, 256);
+    cfg.file_offset = foff;
+    cfg.reserved = reserved;
+    let path = if backend == Backend::File { Some(fresh_path("c15t")) } else { None };
+    let case = json!({"engine": "c15", "tag": "C15", "part": "after-truncate", "cfg": cfg});
+    crate::crashguard::set_case(crate::crashguard::head_of(&case));
+    let r = std::panic::catch_unwind(std::panic::AssertUnwindSafe(|| {
+      let mut bad: Vec<String> = vec![];
+      let mut a: U = build::<U>(&cfg, path.as_ref()).expect("arena");
+      for (i, n) in [40u32, 16, 7].iter().enumerate() {
+        let mut b = a.alloc_bytes(*n).expect("alloc");
+        unsafe { b.detach() };
+        let (o, c) = (b.offset(), b.capacity());
+        drop(b);
+        unsafe { std::ptr::write_bytes(a.raw_mut_ptr().add(o), 0x31 + i as u8, c) };
+      }
+      let al = a.allocated();
+      for n in [256 + 64, 256 + 4096, al + 9, al, al - 10, 0, 300] {
+        let before: Vec<u8> = a.allocated_memory().to_vec();
+        if let Err(e) = a.truncate(n) {
+          bad.push(format!("truncate({}) failed: {}", n, e));
+          break;
+        }
+        run.eval(1);
+        if a.allocated() != al || a.allocated_memory() != &before[..] {
+          bad.push(format!("after truncate({}): allocated {} (was {}), prefix bytes equal: {}", n, a.allocated(), al, a.allocated_memory() == &before[..]));
+          break;
+        }
+        for m in crate::hist::readers_bad(&a) {
+          bad.push(format!("after truncate({}): {}", n, m));
+        }
+        if !bad.is_empty() {
+          break;
+        }
+      }
+      bad
+    }));
+    match r {
+      Err(_) => viol(run, "C15", "panic-in-state:after-truncate", format!("[{:?}] slices / readers panicked after a truncate", cfg), case),
+      Ok(bad) => {
+        for m in bad.into_iter().take(2) {
+          viol(run, "C15", "reader-bounds:after-truncate", format!("[{:?}] {}", cfg, m), case.clone());
+        }
+      }
+    }
+    if let Some(p) = path {
+      let _ = std::fs::remove_file(p);
+    }
+  }
+  crate::crashguard::clear_case();
+}
+
 pub fn check_c15(tier: Tier) -> i32 {
   let run = Run::new("C15", tier, "model_checking");
   let thorough = tier == Tier::Thorough;
@@ -403,15 +460,22 @@ pub fn check_c15(tier: Tier) -> i32 {
     c15_tiny::<unsync::Arena>(&run, b, u);
   }
   crate::props_sched::c15_concurrent(&run, thorough);
+  c15_after_truncate(&run);
   {
     // every fill state a short history reaches (allocations of every kind, releases, discard_freelist, accounting
     // calls, rewinds, clear): slices and readers are checked around the cursor and the capacity after every step
     use Op::*;
     use Sz::*;
-    let alphabet = vec![B(N(7)), B(N(40)), B(R), B(Rp(1)), T(U64), AB(A16, N(9)), AB(U64, Rm(8)), BO(N(16)), D(0), D(1), Disc, IncDisc(3), SetMin(0), Rewind(Pos::Start(0)), Rewind(Pos::End(0)), Rewind(Pos::Cur(-9)), Rewind(Pos::Cur(1 << 40)), Clear];
+    let alphabet = vec![B(N(7)), B(N(40)), B(R), B(Rp(1)), B(Rp(5)), T(U64), AB(A16, N(9)), AB(U64, Rm(8)), BO(N(16)), D(0), D(1), Disc, IncDisc(3), SetMin(0), Rewind(Pos::Start(0)), Rewind(Pos::End(0)), Rewind(Pos::Cur(-9)), Rewind(Pos::Cur(1 << 40)), Clear];
     let depth = if thorough { 5 } else { 4 };
     let spec = Spec { alphabet: alphabet.clone(), depth, oracles: O_READERS, sync: true, unsync: true, diff: false, diff_prop: "C15" };
-    let hcells: Vec<Cfg> = crate::props_hist::cells(&[(Backend::Vec, false), (Backend::Vec, true), (Backend::File, true)], 225, 256);
+    let mut hcells: Vec<Cfg> = crate::props_hist::cells(&[(Backend::Vec, false), (Backend::Vec, true), (Backend::File, true)], 225, 256);
+    // a reserved prefix in front of the data area (allocated() and the reader offsets count from the start of the arena)
+    for (fl, b, unify) in [(Fl::Optimistic, Backend::Vec, false), (Fl::None, Backend::Vec, true), (Fl::Pessimistic, Backend::Anon, false)] {
+      let mut c = Cfg::new(fl, b, unify, if unify { 256 + 8 } else { 225 + 5 });
+      c.reserved = 5;
+      hcells.push(c);
+    }
     explore(&run, &spec, &hcells, &[Start::fresh(), fragmented_starts()[1].clone(), fragmented_starts()[4].clone()], "C15");
     run.set("history_pass", json!({"depth": depth, "alphabet": alphabet.iter().map(|o| o.short()).collect::<Vec<_>>(), "cells": hcells.len(), "starts": 3}));
   }
